@@ -394,6 +394,8 @@ def independent(repo: "BaseRepo", commit_ids: Sequence[ObjectID]) -> list[Object
     """
     if not commit_ids:
         return []
+    # an id given twice is one commit, not two commits reachable from each other
+    commit_ids = list(dict.fromkeys(commit_ids))
     if len(commit_ids) == 1:
         return list(commit_ids)
 
